@@ -14,8 +14,8 @@
 // closed interval or fails leaving the contents; it cannot fail below the limit; pop_min removes and returns the lowest
 // interval; insert_front re-inserts an interval that lies below every element.
 // Extraction drops (echoed into the evidence): `debug_assert!` statements; the closure parameter `|_|` is renamed `|_e|`
-// (Verus rejects `_` parameters); `min < pn_range.start()` (impl PartialOrd<T> for Interval<T>: interval.end < value) is
-// desugared to the model method `min.lt_value(..)`; `self.0` is the model field.  The error VALUE built inside the
+// (Verus rejects `_` parameters); `self.0` is the model field; `min < pn_range.start()` goes through a PartialOrd<PacketNumber>
+// impl of the model interval whose spec transcribes `impl PartialOrd<T> for Interval<T>`.  The error VALUE built inside the
 // `map_err` closure is not decided (that path is proved unreachable: the insert after pop_min cannot fail).
 
 #[derive(Clone, Copy, PartialEq, Eq, Structural)]
@@ -36,8 +36,26 @@ pub struct IntervalX { pub start: PacketNumber, pub end: PacketNumber }
 impl IntervalX {
     pub fn start_inclusive(&self) -> (r: PacketNumber) ensures r == self.start { self.start }
     pub fn end_inclusive(&self) -> (r: PacketNumber) ensures r == self.end { self.end }
-    // impl PartialOrd<T> for Interval<T> (interval_set/interval.rs): an interval is less than a value iff its end is
-    pub fn lt_value(&self, v: PacketNumber) -> (r: bool) ensures r == (self.end.v < v.v) { self.end.v < v.v }
+}
+// `impl PartialOrd<T> for Interval<T>` (interval_set/interval.rs:131-144: Less iff the interval ends below the value, Greater iff it
+// starts above it, otherwise Equal) -- TRUSTED transcription through vstd's spec hooks
+impl PartialEq<PacketNumber> for IntervalX {
+    #[verifier::external_body]
+    fn eq(&self, other: &PacketNumber) -> bool { unimplemented!() }
+}
+impl PartialOrd<PacketNumber> for IntervalX {
+    #[verifier::external_body]
+    fn partial_cmp(&self, other: &PacketNumber) -> Option<core::cmp::Ordering> { unimplemented!() }
+}
+impl vstd::std_specs::cmp::PartialEqSpecImpl<PacketNumber> for IntervalX {
+    open spec fn obeys_eq_spec() -> bool { false }
+    open spec fn eq_spec(&self, other: &PacketNumber) -> bool { false }
+}
+impl vstd::std_specs::cmp::PartialOrdSpecImpl<PacketNumber> for IntervalX {
+    open spec fn obeys_partial_cmp_spec() -> bool { true }
+    open spec fn partial_cmp_spec(&self, other: &PacketNumber) -> Option<core::cmp::Ordering> {
+        if self.end.v < other.v { Some(core::cmp::Ordering::Less) } else if self.start.v > other.v { Some(core::cmp::Ordering::Greater) } else { Some(core::cmp::Ordering::Equal) }
+    }
 }
 
 pub open spec fn range_set(a: int, b: int) -> Set<int> { vstd::set_lib::set_int_range(a, b + 1) }
@@ -91,7 +109,7 @@ pub open spec fn dropped_post(old_s: Set<int>, new_s: Set<int>, a: int, b: int, 
 
 pub struct Ranges { pub set: IntervalSetX }
 impl Ranges {
-//@ splice-fn quic/s2n-quic-core/src/ack/ranges.rs "Ranges" insert_packet_number_range vis=strip dropstmt=debug_assert! "subst=self.0=>self.set@@|_|=>|_e|@@min < pn_range.start()=>min.lt_value(pn_range.start())"
+//@ splice-fn quic/s2n-quic-core/src/ack/ranges.rs "Ranges" insert_packet_number_range vis=strip dropstmt=debug_assert! "subst=self.0=>self.set@@|_|=>|_e|"
 //@| requires old(self).set.inv(), pn_range.valid(),
 //@| ensures
 //@|     final(self).set.inv(),
